@@ -17,6 +17,8 @@ import (
 	"github.com/Flowpack/prunner"
 	"github.com/Flowpack/prunner/definition"
 	"github.com/Flowpack/prunner/store"
+
+	"verif/internal/payload"
 )
 
 // MemStore is an in-memory DataStore that remembers what was saved.
@@ -32,6 +34,10 @@ type MemStore struct {
 	Explicit int32
 	captured int32
 	release  chan struct{}
+
+	// Inner, if set, is the real store behind the gate (a JsonDataStore on disk).
+	Inner store.DataStore
+	Dir   string
 }
 
 func NewMemStore() *MemStore { return &MemStore{release: make(chan struct{})} }
@@ -50,6 +56,9 @@ func (s *MemStore) Release() {
 }
 
 func (s *MemStore) Load() (*store.PersistedData, error) {
+	if s.Inner != nil {
+		return s.Inner.Load()
+	}
 	if s.Init != nil {
 		return s.Init, nil
 	}
@@ -66,6 +75,9 @@ func (s *MemStore) Save(d *store.PersistedData) error {
 	s.Last = d
 	s.Saves++
 	s.mu.Unlock()
+	if s.Inner != nil {
+		return s.Inner.Save(d)
+	}
 	return nil
 }
 
@@ -162,7 +174,23 @@ func (m *Machine) stateString() string {
 
 func NewMachine(t *rapid.T, cfg *Cfg) *Machine {
 	defs := GenDefs(t, cfg)
-	return NewMachineWithDefs(t, cfg, defs, NewMemStore())
+	mem := NewMemStore()
+	if cfg.DiskStore {
+		base := os.Getenv("VERIF_WORK")
+		if base == "" {
+			base = os.TempDir()
+		}
+		dir, err := os.MkdirTemp(base, "simstore")
+		if err != nil {
+			t.Fatalf("tmp: %v", err)
+		}
+		inner, err := store.NewJSONDataStore(dir)
+		if err != nil {
+			t.Fatalf("store: %v", err)
+		}
+		mem.Inner, mem.Dir = inner, dir
+	}
+	return NewMachineWithDefs(t, cfg, defs, mem)
 }
 
 func NewMachineWithDefs(t *rapid.T, cfg *Cfg, defs *definition.PipelinesDef, mem *MemStore) *Machine {
@@ -278,6 +306,9 @@ func (m *Machine) Close() {
 		}
 	}
 	w.cancel()
+	if m.mem.Dir != "" {
+		_ = os.RemoveAll(m.mem.Dir)
+	}
 }
 
 // ---------------------------------------------------------------------------------------------
@@ -358,6 +389,13 @@ func (m *Machine) ActSchedule(t *rapid.T) {
 	}
 	vars, reserved := GenVars(t, m.cfg, victim)
 	user := rapid.SampledFrom([]string{"", "alice", "bob"}).Draw(t, "user")
+	if m.cfg.RichPayload {
+		vars, reserved = payload.GenVariables(t), false
+		user = payload.GenString(t, "user")
+		if hasNonInteger(vars) {
+			m.w.Stats.hit("payload:non-integer-number")
+		}
+	}
 	s0 := m.snap
 	def := m.w.Defs.Pipelines[p]
 	running, waiting := m.jobsOf(s0, p)
@@ -708,6 +746,10 @@ func (m *Machine) ActFinish(t *rapid.T, failPct int) {
 	out := Outcome{Kind: OutOK}
 	if pct(t, failPct, "fails") {
 		out = Outcome{Kind: OutFail, ExitCode: int16(rapid.SampledFrom([]int{1, 2, 127, 255}).Draw(t, "exitCode"))}
+		if m.cfg.RichPayload {
+			out.ExitCode = int16(rapid.IntRange(1, 32767).Draw(t, "exitCode16"))
+			out.ErrText = payload.GenNonEmptyString(t, "errText")
+		}
 	}
 	m.deliver(o, out)
 	m.settle("finish")
@@ -1247,4 +1289,24 @@ func (m *Machine) defined(s *Snap) *Snap {
 		}
 	}
 	return c
+}
+
+func hasNonInteger(v interface{}) bool {
+	switch x := v.(type) {
+	case float64:
+		return x != float64(int64(x))
+	case map[string]interface{}:
+		for _, e := range x {
+			if hasNonInteger(e) {
+				return true
+			}
+		}
+	case []interface{}:
+		for _, e := range x {
+			if hasNonInteger(e) {
+				return true
+			}
+		}
+	}
+	return false
 }
